@@ -153,7 +153,7 @@ class Env(gpp.UGenParameter, gpp.NodeParameter):
         'sine': 3,
         'wel': 4,
         'welch': 4,
-        'sqrt': 6,
+        'sqr': 6,
         'squared': 6,
         'cub': 7,
         'cubed': 7,
